@@ -15,9 +15,17 @@ func (c *Conversation) processDisconnectedTLV(t tlv, x dataMessageExtra) (toSend
 	// the last message of the ended session must not be resent in a later one
 	c.resend.clear()
 
+	// the MAC keys that authenticated what we accepted in this session are still owed to the peer: the
+	// session is over, so every key pair is retired, but the finished state cannot send. They go out with the
+	// first data message of a later session (as after End() and after a refresh)
+	owedMACKeys := c.keys.macKeysToDisclose()
+
 	// erase the session's secrets, do not just drop the references to them
 	c.keys.wipe()
 	c.keys = keyManagementContext{}
+
+	c.keys.oldMACKeys = owedMACKeys
+	c.keys.forgetOldestMACKeysOver(maxMACKeysAwaitingDisclosure)
 
 	return nil, nil
 }
